@@ -340,3 +340,36 @@ def prev_chain(ctx, F):
             break
     ctx.ob("R-ORDER", "prev-chain-followed-to-its-end", ok, why, rd.where(),
            what="Reader::read does not follow the /Prev chain to its end (%s): objects that only the third-newest or an older revision defines are missing after loading" % why)
+
+
+def number_widths(ctx, F):
+    """The numbers of the file format are read into types that hold them: object numbers, entry counts and offsets of a classic
+    cross-reference table at least 32 bits (a section may list more than 65535 entries, an object number may exceed it), a
+    three-digit octal escape of a literal string at least 9 bits (\\400..\\777 are legal: the high-order overflow is ignored,
+    ISO 32000-1 7.3.4.2) before it is cut to a byte."""
+    import json
+    xb = F.fn("parser::xref")
+    tys = set()
+    for x in F.with_closures(xb):
+        for c in x.calls:
+            tys |= set(re.findall(r"parser::unsigned_int::<(\w+)>", c.full or ""))
+        for nm_, _l, _b in x.fn_mentions():
+            pass
+    # fn items mentioned as values carry their instantiation in the constant's full name
+    for x in F.with_closures(xb):
+        for bi, si, st in x.stmts():
+            tys |= set(re.findall(r"parser::unsigned_int::<(\w+)>", json.dumps(st)))
+        for bi in range(x.n):
+            tys |= set(re.findall(r"parser::unsigned_int::<(\w+)>", json.dumps(x.term(bi))))
+    narrow = sorted(t for t in tys if t in ("u8", "u16", "i8", "i16"))
+    ctx.ob("R-TABLE", "xref-table-number-widths", bool(tys) and not narrow, "the numbers of a cross-reference table are parsed as %s" % sorted(tys), xb.where(),
+           what="parser::xref parses a number of the cross-reference table as %s: a table with more than 65535 entries in a subsection (or an object number above it) is rejected, although the writer produces it" % narrow)
+    ob = F.fn("parser::oct_char")
+    rad = set()
+    for x in F.with_closures(ob):
+        for c in x.calls:
+            m = re.search(r"num::<impl (\w+)>::from_str_radix$", c.fn or "")
+            if m:
+                rad.add(m.group(1))
+    ctx.ob("R-TABLE", "octal-escape-width", bool(rad) and not (rad & {"u8", "i8"}), "octal escapes are converted through %s" % sorted(rad), ob.where(),
+           what="parser::oct_char converts the digits of an octal escape through %s: the legal escapes \\400..\\777 fail to convert and are read as a backslash followed by digits" % sorted(rad))
